@@ -305,3 +305,35 @@ F("MERGE-class-documented-attributes-first", ["C07"],
   "parse.class_ lists the attributes that have a :cvar entry first and the undocumented ones after them, whatever their order in "
   "the class body (same defect as CLASS-documented-first-order)",
   ["SourceOrder"], when={"k": "merge", "kind": "class", "nattrs": 2})
+
+# ------------------------------------------------------------------------------------------------ prose (C17)
+BRK = ["bracketed", "brackdot", "tuple"]
+DOTV = ["call", "dotted", "code"]
+F("PROSE-rest-of-sentence-glued", ["C17"],
+  "extract_default with removal: the text after the default sentence is re-joined to the prose without its separating space "
+  "(`...epochs.It is also used later`)",
+  ["ProseBack"], when={"k": "prose", "remove": True, "suffix": "sentence"})
+F("PROSE-line-starting-with-announcement", ["C17"],
+  "extract_default with removal on a line that starts with the announcement returns garbage prose (`Defaults to 2`) because it "
+  "slices at `_start_idx - 1`",
+  ["ProseBack"], when={"k": "prose", "remove": True, "prefix": "none"})
+F("PROSE-bracketed-value-never-ends", ["C17"],
+  "extract_default counts closing brackets as opening ones, so a full stop after `]` / `)` never ends the value: the rest of the line "
+  "is swallowed into the default",
+  ["ValueBack", "ProseBack", "TypeBack"], when={"k": "prose", "value": BRK, "mode": "read"})
+F("PROSE-negative-int-becomes-float", ["C17"],
+  "extract_default: a negative integer without a scalar declared type comes back as a float (`isdecimal` rejects the sign, `float()` accepts it)",
+  ["ValueBack", "TypeBack"], when={"k": "prose", "value": "intNeg", "typ": ["none", "OptInt"]})
+F("PROSE-dotted-value-cut-at-first-dot", ["C17"],
+  "extract_default cuts an unparenthesised dotted name or call (`np.float32`, `np.empty(0)`) at its first full stop and glues the rest to the prose; "
+  "back-ticks of a code value are stripped",
+  ["ValueBack", "ProseBack", "TypeBack"], when={"k": "prose", "value": DOTV})
+F("PROSE-word-default-suppresses-announcement", ["C17"],
+  "set_default_doc does not write the `Defaults to` sentence when the prose merely contains the word `default(s)`, so the value is not in the text",
+  ["ValueBack", "ProseBack", "TypeBack"], when={"k": "prose", "mode": "write", "prefix": "dfltword"})
+F("PROSE-list-typed-bracket-quoted", ["C17"],
+  "a bracketed default under a List[str] type is quoted by set_default_doc / coerced on the way back and does not return as written",
+  ["ValueBack", "TypeBack"], when={"k": "prose", "value": "bracketed", "typ": "ListStr"})
+F("PROSE-unquoted-string-with-str-type-raises", ["C17"],
+  "extract_default with declared type `str` passes an unquoted string value to ast.literal_eval and raises ValueError",
+  ["NeverRaises"], when={"k": "prose", "typ": "str", "value": "bare", "mode": "read"})
